@@ -166,3 +166,21 @@ def optional_iff_not_required_replay():
                 return {"call": "cdd.json_schema.utils.parse_utils.json_schema_property_to_param(('alpha', %r), required=%r)" % (prop, sorted(required)),
                         "what": "the type comes back as %r: a property that is %s must come back %s" % (out.get("typ"), "not listed in `required`" if want_optional else "required", "as Optional[...]" if want_optional else "unwrapped")}
     return None
+
+
+def infer_default_replay():
+    """The contract on _infer_default's type step, on the real function parser: a declared annotation survives a negative default"""
+    import ast as _ast
+
+    import cdd.function.parse
+
+    for ann, dflt in (("Optional[int]", "-4"), ("Optional[float]", "-2.5"), ("int", "-3"), ("Optional[int]", "+4"), ("float", "-1e-07"), ("Optional[complex]", "-2j")):
+        src = "def conf(warmup: %s = %s):\n    \"\"\"\n    Conf\n\n    :param warmup: the warmup\n    \"\"\"\n    return warmup\n" % (ann, dflt)
+        try:
+            ir = cdd.function.parse.function(_ast.parse(src).body[0])
+        except Exception:
+            continue
+        got = ir["params"]["warmup"].get("typ")
+        if got != ann:
+            return {"source": src, "what": "cdd.function.parse.function reads the parameter `warmup: %s = %s` with the type %r: the declared annotation was replaced by the run-time type of the default" % (ann, dflt, got)}
+    return None
